@@ -278,8 +278,8 @@ class Aliases:
 
 def split_tuple_assign(stmt):
     """a, b = x, y  ->  [(a, x), (b, y)] (targets and values pairwise); other assignments -> [(target, value)]"""
-    if isinstance(stmt, ast.Assign) and len(stmt.targets) == 1 and isinstance(stmt.targets[0], ast.Tuple) and isinstance(stmt.value, ast.Tuple) \
-            and len(stmt.targets[0].elts) == len(stmt.value.elts):
+    if isinstance(stmt, ast.Assign) and len(stmt.targets) == 1 and isinstance(stmt.targets[0], (ast.Tuple, ast.List)) and isinstance(stmt.value, (ast.Tuple, ast.List)) \
+            and len(stmt.targets[0].elts) == len(stmt.value.elts) and not any(isinstance(e, ast.Starred) for e in stmt.targets[0].elts + stmt.value.elts):
         return list(zip(stmt.targets[0].elts, stmt.value.elts))
     if isinstance(stmt, ast.Assign) and len(stmt.targets) == 1:
         return [(stmt.targets[0], stmt.value)]
@@ -290,7 +290,7 @@ def untuple(stmts):
     """`a, b = x, y` -> `a = x; b = y` when no target occurs in a later value (plain parallel assignment, not a swap)"""
     out = []
     for s in stmts:
-        if isinstance(s, ast.Assign) and len(s.targets) == 1 and isinstance(s.targets[0], ast.Tuple) and isinstance(s.value, ast.Tuple) \
+        if isinstance(s, ast.Assign) and len(s.targets) == 1 and isinstance(s.targets[0], (ast.Tuple, ast.List)) and isinstance(s.value, (ast.Tuple, ast.List)) \
                 and len(s.targets[0].elts) == len(s.value.elts) and all(isinstance(t, ast.Name) for t in s.targets[0].elts):
             tn = [t.id for t in s.targets[0].elts]
             used = {n.id for v in s.value.elts for n in ast.walk(v) if isinstance(n, ast.Name)}
